@@ -174,7 +174,7 @@ def run(ctx):
                  and isinstance(s.value, ast.Constant) and s.value.value is True]
         if flags:
             from sa.cfg import reachable_with_flag
-            reach = reachable_with_flag(g2, [(d, None) for d in starts], flags[0])
+            reach = reachable_with_flag(g2, [(d, None) for d in starts], list(dict.fromkeys(flags)))
         else:
             reach = g2.reachable(starts, follow_exc=False)
         appends_after = [n.id for n in g2.nodes if n.id in reach and n.ast is not None and n.kind == "stmt" and "eligible.append" in norm(n.ast)]
